@@ -441,6 +441,7 @@ HS_TRUST = ['Handshake model hand-written from accept.go / dial.go / compress.go
 PROPS = {
     'C05': dict(
         suites=['sched'],
+        race_suites=['sched', 'pair'],
         rule='sched suite: 2-8 concurrent writer goroutines (Write and streaming Writer with 1-4 chunks; every message tagged with writer id and sequence number, length- and content-distinct), '
              'a pinger, a CloseRead reader, and a closer (Close / CloseNow / peer Close frame / none) fired after a seeded delay, on both roles and all compression modes; the transport yields or sleeps at seeded '
              'points inside the library\'s writes; the verif hooks record the order of lock / unlock / frame / close events. Judge: the raw peer\'s recording parses, is conformant (frames atomic, messages '
@@ -478,10 +479,10 @@ PROPS = {
         trusted=COMMON_TRUSTED + [FLATE_ASSUME],
         assumptions=[FLATE_ASSUME, '"caller buffers are never modified" is vacuous on immutable Gallina values: the model makes the copy-then-mask step explicit (C01_payload_masking is about the BUFFER); '
                      'that the caller\'s slice is untouched is established by checksums in the harness only'],
-        level_text='Theorems: frames parse back exactly for every program/configuration/compressor behaviour; the client\'s copy-then-mask bufio loop puts pending ++ mask(payload) on the wire for every '
+        level_text='Theorems: Reader∘Writer delivers exactly the messages written, in order, with their types, for every program — without compression unconditionally, with compression under the stated flate contract; frames parse back exactly for every program/configuration/compressor behaviour; the client\'s copy-then-mask bufio loop puts pending ++ mask(payload) on the wire for every '
                    'buffer fill state; the trim writer sends all but the last 4 bytes for any chunking; the sliding-window dictionary is the last 32 KiB for any slice sizes. Tie: model wire = tapped wire and '
                    'model delivery = library delivery on every case; judge: received = written.',
-        level_note='C01_roundtrip_uncompressed is the end-to-end theorem for uncompressed messages; C01_compressed_delivery is the receiving half of the compressed round trip under an explicit deflater/inflater contract (every fragmentation, control frames anywhere, any buffer sizes, both roles, both takeover settings); the sending half is C02_decodes; their composition and the contract itself (compress/flate) are checked case by case by running the extracted Writer∘Reader composition against the library.',
+        level_note='END-TO-END theorems: C01_roundtrip_uncompressed (no compression) and C01_roundtrip_compressed (permessage-deflate negotiated: every role, option set, threshold, program of Write / Writer / Ping / Pong operations, chunking, read-buffer sizes) — the latter under the explicit contract F0-F2 on the compressor / inflater pair, shown satisfiable by C01_contract_satisfiable. That Go\'s compress/flate satisfies F0-F2 is NOT proved: it is what the pair and wire-out suites exercise (the extracted Writer∘Reader composition runs with compress/flate as the oracle and must equal the library).',
         technique='Coq proofs (induction over chunk lists / buffer loop) + differential run of extracted Writer∘Reader vs two library endpoints',
     ),
     'C07': dict(
